@@ -1,9 +1,62 @@
 (* Properties/C03.v — attribute validation enforces exactly required / allowed / enumerated.
-   Only statements closed by [exact]; proofs are in Proofs/. *)
-From MP Require Import Common.Base Gen.Tables Model.Rule Spec.Attr.
+   Only statements closed by [exact]; proofs are in Proofs/C03_attrs.v.
+   [validate_attrs] computes the collecting-mode list; fail-fast mode is [ff_of] of it
+   (Model/Rule.v header). *)
+From MP Require Import Common.Base Gen.Tables Model.Rule Spec.Attr Proofs.C03_attrs.
 
 (** Table obligation: every shipped rule's attribute table is well-formed
     (complete enumeration, re-run against the working tree). *)
 Theorem C03_table : forallb (fun r => wf_attrs (rr_attrs (snd r))) rules = true.
 Proof. vm_compute. reflexivity. Qed.
 Print Assumptions C03_table.
+
+(** Acceptance, both modes: exactly when every required attribute is present, no
+    unlisted attribute is present, and enumerated attributes carry listed values. *)
+Theorem C03_accepts_iff : forall r a, wf_attrs r = true ->
+  (validate_attrs r a = Errs [] <-> attrs_ok r a) /\
+  (ff_of (validate_attrs r a) = FOk <-> attrs_ok r a).
+Proof. exact C03_accepts_iff_l. Qed.
+Print Assumptions C03_accepts_iff.
+
+(** Collecting mode: one error per violated constraint (never a crash), in the order
+    required-missing (table order) then per node attribute; fail-fast raises the first. *)
+Theorem C03_collect : forall r a, wf_attrs r = true ->
+  validate_attrs r a = Errs (map verr_of_aviol (attr_violations r a)) /\
+  ff_of (validate_attrs r a) = match attr_violations r a with
+                               | [] => FOk
+                               | v :: _ => FRaise (class_of (verr_of_aviol v))
+                               end.
+Proof. exact C03_collect_l. Qed.
+Print Assumptions C03_collect.
+
+(** ... where the reported list is exactly the set of violated constraints, each once. *)
+Theorem C03_one_per_violation : forall r a, wf_attrs r = true -> NoDup (keys a) ->
+  (forall v, In v (attr_violations r a) <-> violated r a v) /\ NoDup (attr_violations r a).
+Proof. exact C03_one_per_violation_l. Qed.
+Print Assumptions C03_one_per_violation.
+
+(** Introspection reports the table ... *)
+Theorem C03_introspection_table : forall r k sp, wf_attrs r = true -> In (k, sp) r ->
+  is_required_attribute r k = Some (Some (spec_required sp)) /\
+  allowed_attribute_values r k = Some (map RStr (spec_values sp)).
+Proof. exact C03_introspection_table_l. Qed.
+Print Assumptions C03_introspection_table.
+
+(** ... and the same facts that validation enforces. *)
+Theorem C03_introspection_required : forall r a k, wf_attrs r = true -> In k (keys r) -> attrs_ok r a ->
+  (is_required_attribute r k = Some (Some true) <-> ~ attrs_ok r (omit k a)).
+Proof. exact is_required_semantic. Qed.
+Print Assumptions C03_introspection_required.
+
+Theorem C03_introspection_values : forall r a k vals v, wf_attrs r = true ->
+  allowed_attribute_values r k = Some vals -> attrs_ok r a ->
+  ((vals = [] \/ In (RStr v) vals) <-> attrs_ok r (assign k v a)).
+Proof. exact allowed_values_semantic. Qed.
+Print Assumptions C03_introspection_values.
+
+(** For every shipped rule (generic theorem + table obligation). *)
+Theorem C03 : forall rn r a, In (rn, r) rules ->
+  (validate_attrs (rr_attrs r) a = Errs [] <-> attrs_ok (rr_attrs r) a) /\
+  validate_attrs (rr_attrs r) a = Errs (map verr_of_aviol (attr_violations (rr_attrs r) a)).
+Proof. exact (C03_from_table rules C03_table). Qed.
+Print Assumptions C03.
